@@ -75,6 +75,10 @@ add("C14", "exploration", "runtime monitoring: reported transitive/direct depend
     "All 2048 three-node graphs (all subsets of edges incl. self-loops and cycles, all kind assignments) in the bare-name form in the quick tier, all four reference forms plus four-node graphs in the thorough tier; random two-module programs with hidden globals() calls are executed and must raise the undeclared-dependency error exactly when an executed hidden call leaves the caller's static closure; functions passed as arguments (bare, list, dict, nested) must be callable.",
     "Reachability on the generated graph data is the oracle; non-memento rules are ignored; small scopes are enumerated completely.", "DESIGN.md §4 C14")
 
+add("C08", "fault_enumeration", "runtime monitoring under fault injection: audit-hook failpoints (crash-before, crash-mid-write with content prefixes, error on the operation, error on write after n bytes) at every mutating filesystem operation of a memoizing call; calls observed in fresh processes afterwards",
+    "For each scenario a profiling run (deterministic version ids) enumerates every mkdir / open-for-write / rename / remove of the memoizing call; every operation is faulted in every applicable variant (thorough: every byte of every link file) in a pristine child, then three fresh processes call the function and a second function with byte-identical results: values must be correct, nothing may raise, and no body may run in the third process (bounded recovery).",
+    "Crash = os._exit at the failpoint; faults hit mutating operations only; durability of completed writes is left to the file system; CPython audit events enumerate the operations.", "DESIGN.md §4 C08")
+
 NOT_BUILT = "check not built yet in this round (design in DESIGN.md §4); will be claimed once its monitor exists"
 
 
